@@ -26,6 +26,31 @@ def check_trained(rd, tf, enc, cov, wit, dist):
     mw, _ = train_util.first_pass(valid)
     parser = train_util.second_pass(valid, mw)
     n_valid = len(valid)
+    # the counts are those of the segmentation: every counter of the real parser (which saw the whole list, in file order) must be the
+    # tally of the segments of the individual passwords, each parsed on its own by the real detectors
+    try:
+        from props import C05 as _c05
+        import corr_detect as _cd
+        _c05.load_context_list()
+        secs_all, infos_all = [], []
+        for pw_ in valid:
+            _line, secs_, info_ = _cd.real_parse_line(pw_, mw)
+            secs_all.append(secs_)
+            infos_all.append(info_)
+        ind = _c05.tallies(secs_all, infos_all)
+        got_c = {'keyboard': _c05.flatten_indexed(parser.count_keyboard), 'years': Counter(parser.count_years),
+                 'context': Counter(parser.count_context_sensitive), 'alpha': _c05.flatten_indexed(parser.count_alpha),
+                 'masks': _c05.flatten_indexed(parser.count_alpha_masks), 'digits': _c05.flatten_indexed(parser.count_digits),
+                 'other': _c05.flatten_indexed(parser.count_other), 'base': Counter(parser.count_base_structures),
+                 'raw': Counter(parser.count_raw_base_structures), 'prince': Counter(parser.count_prince)}
+        for k_ in ind:
+            if +got_c[k_] != +ind[k_]:
+                out.append({'property': 'C06', 'kind': 'counts-differ-from-segment-tally', 'counter': k_,
+                            'diff': str(list(((+got_c[k_]) - (+ind[k_])).items())[:3]) + str(list(((+ind[k_]) - (+got_c[k_])).items())[:3]),
+                            'witness': wit})
+                break
+    except Exception as e_:      # a parse that raises is C05's business
+        dist['tally_skipped'] = dist.get('tally_skipped', 0) + 1
     base = Counter(parser.count_base_structures)
     if any(('E' in s or 'W' in s) for s in parser.count_raw_base_structures):
         dist['unsupported_structures'] = dist.get('unsupported_structures', 0) + 1
@@ -135,6 +160,9 @@ def run(ctx):
             pws, cov = ['1qaz2wsx', 'qwerty!!', '#1love', 'zaq1!@#', '$$$', 'pass1999', 'Ab12!', 'ab', 'x'], 0.6
         elif i == 1:
             pws, cov = ['password1', 'hello22', 'abc', 'Summer', 'password1', '12345'], 0.6
+        elif i == 2:
+            # a fresh parser meets, in its first passwords, two segments of one kind with two new lengths
+            pws, cov = gen_passwords.FRESH_LENGTHS_CORPUS + pws, 0.6
         enc = 'utf-8'
         prev = last if i > 0 else None
         last = {'passwords': pws, 'coverage': cov}
